@@ -18,6 +18,7 @@ import (
 type vrtVector struct {
 	Harness string            `json:"harness"`
 	Model   map[string]uint64 `json:"model"`
+	Sched   []int             `json:"sched"`
 }
 
 func vrtRunOne(v vrtVector) (res *vrtRun) {
@@ -30,15 +31,21 @@ func vrtRunOne(v vrtVector) (res *vrtRun) {
 		res.Outcome = "no-such-harness"
 		return
 	}
-	vrtS = res
 	done := make(chan struct{})
 	go func() {
 		defer close(done)
+		res.sched = vrtNewSched(v.Sched)
+		vrtS = res
 		defer func() {
 			if r := recover(); r != nil {
 				if af, ok := r.(vrtAssumeFailed); ok {
 					res.Outcome = "assume-failed"
 					res.Detail = af.what
+					return
+				}
+				if to, ok := r.(vrtTimeout); ok {
+					res.Outcome = "timeout"
+					res.Detail = to.what
 					return
 				}
 				res.Outcome = "panic"
@@ -57,7 +64,7 @@ func vrtRunOne(v vrtVector) (res *vrtRun) {
 	return
 }
 
-var vrtReplayTimeout = 20 * time.Second
+var vrtReplayTimeout = 8 * time.Second
 
 func TestVerifReplay(t *testing.T) {
 	in := os.Getenv("VERIF_VECTORS")
@@ -77,13 +84,6 @@ func TestVerifReplay(t *testing.T) {
 	for _, v := range vs {
 		r := vrtRunOne(v)
 		results = append(results, r)
-		if r.Outcome == "timeout" {
-			// the stuck goroutine still owns vrtS: stop here
-			for len(results) < len(vs) {
-				results = append(results, &vrtRun{Outcome: "skipped-after-timeout"})
-			}
-			break
-		}
 	}
 	ob, _ := json.Marshal(results)
 	if err := os.WriteFile(out, ob, 0o644); err != nil {
